@@ -13,7 +13,9 @@ import vlib
 from vlib import coq_bytes
 
 IMPORTS = ["lib.Bytes", "model.Path", "model.FsPath"]
-BUCKETS = ["bkt-a", "bkt-b", "bkt-c"]
+# "abc" / "abcdef" / "abcdef-x": names that are prefixes of one another, with lengths that are multiples of 3 (their unpadded
+# base64 encodings are then literal prefixes of one another)
+BUCKETS = ["bkt-a", "bkt-b", "bkt-c", "abc", "abcdef", "abcdef-x"]
 EVIL_BUCKETS = ["..", ".", "", "bkt-a/..", "../outside", "bkt-a/../bkt-b", "/tmp", "BKT-A", ".tmp.0.internal.part", "bkt-a/", "bkt-a/x",
                 ".bucket-Ymt0LWI.object-eno.internal.json", "a", "bkt_a", "bkt-b\x00", "..bkt", "bkt..a", "1.2.3.4", "outside"]
 COMPS = ["a", "b", "..", ".", "", "c.txt", "bkt-b", "bkt-a", "secret.txt", "outside", "%2e%2e", "%2f", "..%2f", "...", ". .", "..a", "root",
@@ -193,6 +195,14 @@ def grid_histories():
                     dict(op="delete_many", bucket="bkt-a", keys=[key]),
                     dict(op="delete", bucket="bkt-a", key=key)]
         hists.append(ops)
+    # bucket names in prefix relation: deleting one must leave the other's objects and side files alone
+    ops = [dict(op="create_bucket", bucket=bk) for bk in BUCKETS]
+    for i, bk in enumerate(BUCKETS):
+        ops.append(dict(op="put", bucket=bk, key="zz", body="T%d@%s" % (9900 + i, bk), metadata={"owner": bk}))
+        ops.append(dict(op="mpu_create", bucket=bk, key="up", alias="p%d" % i, metadata={"mm": "1"}))
+    ops += [dict(op="delete_bucket", bucket="abc"), dict(op="get", bucket="abcdef", key="zz"), dict(op="delete_bucket", bucket="abcdef"),
+            dict(op="get", bucket="abcdef-x", key="zz"), dict(op="delete_bucket", bucket="bkt-a"), dict(op="get", bucket="bkt-b", key="zz")]
+    hists.append(ops)
     return hists
 
 
